@@ -4,6 +4,7 @@ ROOT=${1:-/verif/refactorings}; shift
 WT=/tmp/wt_refac
 cd /verif
 [ -d $WT ] || git -C /repo worktree add -q --detach $WT HEAD
+git -C $WT checkout -q -- . ; git -C $WT checkout -q --detach "$(git -C /repo rev-parse HEAD)"
 for g in ${@:-$(ls $ROOT)}; do
  for d in $(ls -d $ROOT/$g/out/*/ $ROOT/$g/*/ 2>/dev/null | sort -V); do
   [ -f $d/patch.diff ] || continue
